@@ -1,8 +1,8 @@
 (* C17 - property theorems only (statements for ALL n, k, magic; no size bound
    other than the explicitly stated machine-arithmetic regions). *)
-From Coq Require Import List Bool ZArith NArith QArith Qround Lia Permutation.
+From Coq Require Import List Bool ZArith NArith QArith Qround Lqa Lia Permutation.
 From Coq Require Import Sorted.
-From NV.C17 Require Import Model ProofsPerm ProofsComb ProofsSign ProofsTwo ProofsVand ProofsStat.
+From NV.C17 Require Import Model ModelMfx ProofsPerm ProofsComb ProofsSign ProofsTwo ProofsVand ProofsStat ProofsMfx.
 Import ListNotations.
 Close Scope Q_scope.
 
@@ -286,6 +286,63 @@ Theorem twosample_wilcoxon_label_swap_antisymmetric : forall x1 x2, qlen x1 == q
   ts_wilcoxon x2 x1 == - ts_wilcoxon x1 x2.
 Proof. exact ts_wilcoxon_swap. Qed.
 Print Assumptions twosample_wilcoxon_label_swap_antisymmetric.
+
+(* ================================================================ mixed effects (mixed_effects_stat.py) *)
+(* MixedEffectsModel.fit is a function of (pinv_X, X, n_iter, Y, V1) only: the
+   estimates an object already holds (none, or those of an earlier fit of any
+   sample and shape) have no influence *)
+Theorem mfx_fit_history_independent : forall P X n o o' Y V1,
+  fit_method P X n o Y V1 = fit_method P X n o' Y V1.
+Proof. exact fit_history_independent. Qed.
+Print Assumptions mfx_fit_history_independent.
+
+Theorem mfx_fit_after_any_fit_is_fresh_fit : forall P X n o YA V1A YB V1B o1,
+  fit_method P X n o YA V1A = Some o1 ->
+  fit_method P X n o1 YB V1B = fit_method P X n fresh_obj YB V1B.
+Proof. exact fit_sequence. Qed.
+Print Assumptions mfx_fit_after_any_fit_is_fresh_fit.
+
+Theorem mfx_fit_idempotent : forall P X n o Y V1 o1,
+  fit_method P X n o Y V1 = Some o1 -> fit_method P X n o1 Y V1 = Some o1.
+Proof. exact fit_idempotent. Qed.
+Print Assumptions mfx_fit_idempotent.
+
+Theorem mfx_fit_total : forall P X n o Y V1,
+  exists o', fit_method P X n o Y V1 = Some o'
+             /\ o_V2 o' <> None /\ o_fit o' <> None /\ o_beta o' <> None.
+Proof. exact fit_total. Qed.
+Print Assumptions mfx_fit_total.
+
+(* n_iter + 1 iterations = n_iter iterations followed by one more EM step *)
+Theorem mfx_fit_is_n_iter_steps : forall P X n o Y V1,
+  fit_method P X (S n) o Y V1
+  = match fit_method P X n o Y V1 with Some s => one_step P X Y V1 s | None => None end.
+Proof. exact fit_unfold_S. Qed.
+Print Assumptions mfx_fit_is_n_iter_steps.
+
+(* the E step is the posterior of the two-level Gaussian model *)
+Theorem mfx_estep_is_gaussian_posterior : forall v2 y v1 f, 0 < v1 -> 0 < v2 ->
+  e_mean v2 y v1 f == f + (v2 / (v2 + v1)) * (y - f) /\ e_cvar v2 v1 == 1 / (1 / v1 + 1 / v2).
+Proof. intros. split; [apply e_mean_is_shrinkage; lra|apply e_cvar_is_harmonic; assumption]. Qed.
+Print Assumptions mfx_estep_is_gaussian_posterior.
+
+Theorem mfx_estep_shrinks_towards_fit : forall v2 y v1 f, 0 <= v1 -> 0 <= v2 -> 0 < v2 + v1 -> f <= y ->
+  f <= e_mean v2 y v1 f <= y.
+Proof. exact e_mean_between. Qed.
+Print Assumptions mfx_estep_shrinks_towards_fit.
+
+Theorem estimate_mean_effect_antisymmetric : forall Y sd,
+  em_effect (map Qopp Y) sd == - em_effect Y sd.
+Proof. exact em_effect_flip. Qed.
+Print Assumptions estimate_mean_effect_antisymmetric.
+
+(* non-vacuity: a fit that resumes from existing estimates would violate it *)
+Example mfx_warm_start_would_depend_on_history :
+  let P := [[1#2; 1#2]] in let X := [[1]; [1]] in
+  exists oA, fit_method P X 1 fresh_obj [4; 8] [1; 1] = Some oA /\
+  Qeq_bool (fit_V2 (fit_warm P X 1 oA [0; 1] [1; 1])) (fit_V2 (fit_warm P X 1 fresh_obj [0; 1] [1; 1])) = false /\
+  Qeq_bool (fit_V2 (fit_method P X 1 oA [0; 1] [1; 1])) (fit_V2 (fit_method P X 1 fresh_obj [0; 1] [1; 1])) = true.
+Proof. exact warm_start_depends_on_history. Qed.
 
 (* ================================================================ p-values *)
 Theorem calibrated_p_in_closed_unit_interval : forall draws t, draws <> [] ->
